@@ -55,6 +55,8 @@ class EngineBase:
         self.cur_qual: List[str] = []
         self.opaque_handlers = {}         # typ -> handler(engine, st, recv, name, args, kwargs)
         self.external_handlers = {}       # dotted external name -> handler(engine, st, args, kwargs)
+        self.external_values = {}         # dotted external name -> value (e.g. math.pi)
+        self.axioms = []                  # facts about global constants, assumed at the start of every run
         self.uf = {}
         self.cur_obl_prefix = ""
         self.used_assumptions = set()
